@@ -4,6 +4,7 @@ CONSTANTS
   MaxVar = 1
   NCtx = 0
   Nesting = TRUE
+  TaskAllow = FALSE
   AtomicLaunch = TRUE
   HookKinds = {"none"}
 SPECIFICATION Spec
